@@ -116,6 +116,30 @@ func generate(cfg *hx.Config) []hx.Case {
 		add(mk("b-stallS-"+ev+"-FR", stalledS, []string{ev, "FR"}), "stalledS", ev+",FR")
 	}
 	add(mk("b-stallS-FR", stalledS, []string{"FR"}), "stalledS", "FR")
+	// 4c. the reader's own writes under destMu (credit WINDOW_UPDATEs, forwarded PING/SETTINGS) block or
+	//     fail while the opposite direction has something to write to the same destination
+	up := []string{"hs:65535:65535", "ch:1", "sh:1"}
+	for _, need := range []string{"sh:3", "sp", "sd:1:2:10", "sr:1:3"} { // what the server->client direction writes to the client afterwards
+		n := strings.ReplaceAll(need, ":", "_")
+		// credit for a client DATA frame is stuck in Write toward the client, then fails
+		add(mk("d-creditC-"+n+"-WFC", up, []string{"STC", "cd:1:1:100", need, "WFC"}), "creditC-stalled", need+",WFC")
+		// ... and the session is shut down / the client goes away on top
+		add(mk("d-creditC-"+n+"-WFC-CL-CC", up, []string{"STC", "cd:1:1:100", need, "WFC", "CL", "CC"}), "creditC-stalled", need+",WFC,CL,CC")
+		// the credit write fails at once while the server's frame is in flight
+		add(mk("d-creditC-fail-"+n, up, []string{"WFC", "cd:1:1:100+" + need}), "creditC-failing", need)
+	}
+	// a forwarded PING is stuck toward the client while a credit write and a queued frame wait behind it
+	add(mk("d-pingC-stuck", up, []string{"STC", "sp", "cd:1:1:100", "sh:3", "WFC"}), "pingC-stalled", "cd,sh,WFC")
+	add(mk("d-pingC-stuck-CC", up, []string{"STC", "sp", "sh:3", "CC", "WFC"}), "pingC-stalled", "sh,CC,WFC")
+	// upstream as destination: the credit for a server DATA frame fails on a reset connection while the
+	// client->server direction still has frames / a PING to write upstream
+	for _, need := range []string{"cr:1:40", "cp", "cd:1:5:10"} {
+		n := strings.ReplaceAll(need, ":", "_")
+		add(mk("d-creditS-reset-"+n, up, []string{"sd:1:1:100+SR+" + need}), "creditS-reset", need)
+	}
+	stalledUp := []string{"hs:65535:2147483647", "sw:0:2147418112", "ch:1", "sh:1", "STS", "cd:1:700:16384"}
+	add(mk("d-creditS-stalled-FR", stalledUp, []string{"sd:1:1:100", "FR"}), "creditS-stalled", "sd,FR")
+	add(mk("d-creditS-stalled-FH-FR", stalledUp, []string{"sd:1:1:100", "FH", "FR"}), "creditS-stalled", "sd,FH,FR")
 	// 5. controls: nothing that ends the session has happened, the relay must stay up
 	add(mk("c-idle", stateScript("idle", 0), []string{"cp", "sp"}), "idle", "none")
 	add(mk("c-mid-armed", stateScript("mid", 0), []string{"WFC", "cp"}), "mid", "none(WFC armed, no write toward the client)")
